@@ -2,7 +2,7 @@
     writes, the comparison of the implementation's observations with the model
     ([mismatches_*]) and the plain-meaning oracles evaluated on the
     implementation's observations ([oracle_*]). *)
-From Shk Require Import Base.Prelude Model.Timeutil.
+From Shk Require Import Base.Prelude Model.Timeutil Model.Ticker.
 Open Scope Z_scope.
 
 (** (sec, nsec, observed ToUnixMicros) *)
@@ -158,3 +158,14 @@ Fixpoint race_free (ops : list hop) : bool :=
     (duration asked for, time measured until the tick; -1 = no tick), in ns. *)
 Definition latency_case := (Z * Z)%type.
 Definition latency_bad (c : latency_case) : bool := let '(d, e) := c in (e <? d)%Z || (e <? 0)%Z.
+
+(** The collector's ticker loop on the real Timer: NewTimer; Reset(P); then per
+    round wait for the tick, set Read, Reset(P) again (with a pause of arbitrary
+    length before some of the receives).  (P, instants of the receives since the
+    first Reset, in ns; a receive that never came = -1): the instants must be
+    at least P apart, the first at least P after the start
+    (Properties/C18.v c18_ticker_flushes_spaced), and no Reset may block
+    (a blocked loop shows as a missing receive). *)
+Definition ticker_case := (Z * list Z)%type.
+Definition ticker_bad (c : ticker_case) : bool :=
+  let '(P, ts) := c in negb (spacedb P 0 ts) || existsb (fun t => t <? 0) ts.
